@@ -225,6 +225,7 @@ def stepRest (st : St) (toks : List String) : St × String :=
       | none => "panic")
   | ["rcenter", n, h] => (st, optPairF (Ring.center st.debug (nat! n) (nat! h)))
   | ["rcpc", n, h] => (st, optPairF (Ring.centerOfProjectedCell st.debug (nat! n) (nat! h)))
+  | ["rvertices", n, h] => (st, optListF (Ring.vertices st.debug (nat! n) (nat! h)))
   | ["rsphcoo", n, h, dx, dy] => (st, optPairF (Ring.sphCoo st.debug (nat! n) (nat! h) (fl dx) (fl dy)))
   | "once" :: n :: sched => (st, onceOp (nat! n) (sched.map nat!))
   | ["onceprog"] => (st, OnceProg.report)
@@ -241,6 +242,10 @@ def stepRest (st : St) (toks : List String) : St × String :=
   | ["cpc", d, h] => (st, optPairF (Hash.centerOfProjectedCell st.cfg (nat! d) (nat! h)))
   | ["vertices", d, h] => (st, optListF (Hash.vertices st.cfg (nat! d) (nat! h)))
   | ["vertex", d, h, k] => (st, optPairF (Hash.vertex st.cfg (nat! d) (nat! h) (nat! k)))
+  | ["vmap", d, h, mask] =>
+    (st, match Hash.verticesMap (α := Float) st.cfg (nat! d) (nat! h) (nat! mask) with
+      | some l => " ; ".intercalate (l.map fun o => match o with | some p => s!"{fb p.1} {fb p.2}" | none => "-")
+      | none => "panic")
   | ["sphcoo", d, h, dx, dy] => (st, optPairF (Hash.sphCoo st.cfg (nat! d) (nat! h) (fl dx) (fl dy)))
   | ["hashdxdy", d, lon, lat] =>
     (st, match Hash.hashWithDxDy st.cfg (nat! d) (fl lon) (fl lat) with
